@@ -12,7 +12,7 @@ ASSUMPTIONS = [
     'h19_2: "time bounded by a small multiple of the file size" is measured as the number of stream reads plus engine decisions of one battery run: at most 16 x file size + 2048',
 ]
 STUBS = ['SymStream (io.BytesIO incl. seek/read failure contract)', 'SxPacker (struct.Struct)']
-OUTSIDE = ['random multi-field corruptions beyond pairs', 'seed files larger than 1 KiB', 'wall-clock time and allocator peaks (loop iterations and read counts are bounded instead)',
+OUTSIDE = ['random multi-field corruptions beyond pairs', 'seed files other than the two built here (about 1.5 KiB with 8 dynamic entries; about 8 KiB with 392, with and without section headers)', 'wall-clock time and allocator peaks (loop iterations and read counts are bounded instead)',
            'exception TYPE of the enumeration battery (the statement only asks that it terminates)']
 
 
@@ -40,7 +40,7 @@ def h_ctor(ctx):
 
 
 # ------------------------------------------------------------------ H19.2 termination of the enumeration battery
-def _seed(cls, little):
+def _seed(cls, little, needed=0, stripped=False):
     """small well-formed shared object with sections, segments, symbols, dynamic table, notes and both hash tables"""
     img = Image(cls, little, machine=62 if cls == 64 else 3, e_type=3)
     w = lambda v: enc.enc_int(v, 4, little)
@@ -54,12 +54,16 @@ def _seed(cls, little):
     note = w(4) + w(4) + w(3) + [0x47, 0x4e, 0x55, 0] + [1, 2, 3, 4] + w(0) + w(0) + w(7)
     noteoff = img.blob(note, align=4)
     dynsz = L.sizeof('DYN', cls)
-    tags = [(1, 1), (5, stroff), (10, len(dynstr)), (6, symoff), (11, symsz), (4, hashoff), (0x6ffffef5, gnuoff), (0, 0)]
+    tags = [(1, 1)] * (1 + needed) + [(5, stroff), (10, len(dynstr)), (6, symoff), (11, symsz), (4, hashoff), (0x6ffffef5, gnuoff), (0, 0)]
     dynoff = img.blob(sum([L.encode('DYN', cls, little, dict(d_tag=t, d_val=v)) for t, v in tags], []), align=8)
     size_guess = img.here() + 1024
     img.segment(p_type=1, p_offset=0, p_vaddr=0, p_paddr=0, p_filesz=size_guess, p_memsz=size_guess, p_flags=5, p_align=0x1000)
     img.segment(p_type=2, p_offset=dynoff, p_vaddr=dynoff, p_paddr=dynoff, p_filesz=len(tags) * dynsz, p_memsz=len(tags) * dynsz, p_flags=6, p_align=8)
     img.segment(p_type=4, p_offset=noteoff, p_vaddr=noteoff, p_paddr=noteoff, p_filesz=len(note), p_memsz=len(note), p_flags=4, p_align=4)
+    if stripped:
+        # no section header table at all (sstrip / strip --strip-section-headers): everything is found through the program headers
+        data = img.build()
+        return data, dict(shoff=0, phoff=img.phoff, shent=img.shent, phent=img.phent, dyn=dynoff, sym=symoff, hash=hashoff, gnu=gnuoff, note=noteoff)
     img.section('', sh_type=0)
     img.section('.dynstr', sh_type=3, sh_offset=stroff, sh_size=len(dynstr), sh_flags=2)                                   # 1
     img.section('.dynsym', sh_type=11, sh_offset=symoff, sh_size=3 * symsz, sh_entsize=symsz, sh_link=1, sh_info=1)          # 2
@@ -171,7 +175,7 @@ def h_battery(ctx):
     EF = ctx.lib('elf.elffile')
     EXC = ctx.lib('common.exceptions')
     ctx.loose_text(True)
-    data, where = _seed(cls, little)
+    data, where = _seed(cls, little, cfg.get('needed', 0), cfg.get('stripped', False))
     data = list(data)
     trunc = cfg.get('truncate')
     for k, spec in enumerate(cfg.get('fields', [])):
@@ -283,6 +287,9 @@ QUICK_FIELDS = [f for f in FIELDS if f[2] in ('e_shoff', 'e_phoff', 'e_shnum', '
                                              'p_offset', 'p_filesz', 'd_tag', 'd_val', 'hash', 'gnu', 'note') and not (f[0] == 'SHDR' and f[1] in (5,) and f[2] == 'sh_link')]
 
 
+BIG = 384        # dynamic entries of the long-table seeds
+
+
 def _battery_instances(tier):
     out = []
     envs = [(64, True), (32, False)]
@@ -301,6 +308,11 @@ def _battery_instances(tier):
         for a, b in pairs if tier == 'thorough' else [pairs[0], pairs[2]]:
             out.append(dict(elfclass=cls, little=little, fields=[list(a), list(b)]))
         out.append(dict(elfclass=cls, little=little, fields=[list(pairs[6][0]), list(pairs[6][1])], range='beyond'))
+        # long tables (a cost that is quadratic in the number of entries only shows with many entries), with and without section headers
+        for stripped in (True, False):
+            out.append(dict(elfclass=cls, little=little, fields=[], needed=BIG, stripped=stripped))
+            out.append(dict(elfclass=cls, little=little, fields=[['DYN', BIG // 2, 'd_tag']], needed=BIG, stripped=stripped))
+            out.append(dict(elfclass=cls, little=little, fields=[['DYN', BIG + 1, 'd_val']], needed=BIG, stripped=stripped, range='beyond'))
         data, where = _seed(cls, little)
         cuts = sorted({0, 1, 16, 51, 52, 63, 64, where['phoff'], where['phoff'] + 1, where['shoff'] - 1, where['shoff'], where['shoff'] + where['shent'], where['dyn'] + 4, where['note'] + 13,
                        len(data) - 1})
